@@ -16,9 +16,13 @@ M2 (part 2): `src/parser.rs` as fuel-indexed recursion over a token list.
 * The model is of the tree WITH the three repairs in /verif/patches/parser-fix-left-assoc.diff
   (infix loop folds left: the right operand is parsed without infix operators),
   parser-fix-tuple-progress.diff (tuple loop breaks on an invalid element like its sibling loops) and
-  parser-fix-symbol-eof.diff (`parse_symbol` at the end of the file returns a placeholder instead of
-  re-reading / un-popping the previous token).
-  The flag `pn` ("pinned") selects the pre-repair behaviour of exactly these three places; theorems are about `pn = false`, the negative witnesses in
+  parser-fix-eof-progress.diff: the three loops whose progress assertion fails at the end of the file
+  (tuple type hint, parameters, destructuring; `parse_symbol` un-pops a token it never popped there)
+  `break` instead of asserting, and the four loops that never terminate there (type arguments, type
+  parameters, enum body, struct literal fields) `break` when an iteration made no progress.
+  `parse_symbol` itself is unchanged.
+  The flag `pn` ("pinned") selects the pre-repair behaviour of exactly these places (a pinned non-terminating loop shows
+  as `outOfFuel`); theorems are about `pn = false`, the negative witnesses in
   Props/C03.lean and Props/C01Parse.lean about `pn = true`.
 * Not modelled: syntax ids, `value_is_used` (second pass), doc comments, diagnostics' messages and
   positions (only their kind and order).
@@ -248,16 +252,11 @@ def requiredTokenOk (toks : Toks) (expected : String) : P Bool := do
   pure ok
 
 /-- `parse_symbol` (the description only changes message texts). -/
-def parseSymbol (toks : Toks) (pn : Bool) : P PSym := do
+def parseSymbol (toks : Toks) (_pn : Bool) : P PSym := do
   let p ← prev toks
-  -- repair parser-fix-symbol-eof.diff: at the end of the file `require_a_token` hands back the
-  -- PREVIOUS token, which the pinned code then treats as the symbol (or un-pops although it never
-  -- popped it); the repaired code reports `Incomplete` and returns a placeholder.
-  let atEof := (← peek toks).isNone
-  if !pn && atEof then do
-    diag .incomplete
-    pure ⟨"__placeholder", match p with | some t => t.pos | none => Pos.todo⟩
-  else
+  -- NB at the end of the file `require_a_token` hands back the PREVIOUS token, which is then
+  -- treated as the symbol, or un-popped although it was never popped (the index moves BACK by one).
+  -- The loops that call this guard against the resulting lack of progress (parser-fix-eof-progress).
   let t ← requireAToken toks
   if !isSymbolTok t.text then do
     diag .invalid
@@ -312,11 +311,15 @@ def typeArgsLoop (toks : Toks) (pn : Bool) : Nat → List TypeHint → P (List T
   | fuel + 1, acc => do
     if ← peekIs toks ">" then pure acc
     else do
+      let start ← getIdx
       let arg ← parseTypeHint toks pn fuel
       let acc := acc ++ [arg]
       match ← peek toks with
       | some t =>
-        if t.text == "," then do let _ ← pop toks; typeArgsLoop toks pn fuel acc
+        if t.text == "," then do
+          let _ ← pop toks
+          -- repair: no forward progress (end of file) → stop; the pinned code loops forever
+          if !pn && (← getIdx) ≤ start then pure acc else typeArgsLoop toks pn fuel acc
         else if t.text == ">" then pure acc
         else do diag .invalid; pure acc
       | none => do diag .incomplete; pure acc
@@ -344,7 +347,7 @@ def tupleHintLoop (toks : Toks) (pn : Bool) : Nat → List TypeHint → P (List 
           if t.text == "," then do let _ ← pop toks
           else do diag .incomplete; let _ ← pop toks
           if (← getIdx) > start then tupleHintLoop toks pn fuel acc
-          else panic "parser.rs:1995"
+          else if pn then panic "parser.rs:1995" else pure acc
 end
 
 /-- `parse_type_params`. -/
@@ -353,11 +356,14 @@ def typeParamsLoop (toks : Toks) (pn : Bool) : Nat → List String → P (List S
   | fuel + 1, acc => do
     if ← peekIs toks ">" then pure acc
     else do
+      let start ← getIdx
       let arg ← parseSymbol toks pn
       let acc := acc ++ [arg.name]
       match ← peek toks with
       | some t =>
-        if t.text == "," then do let _ ← pop toks; typeParamsLoop toks pn fuel acc
+        if t.text == "," then do
+          let _ ← pop toks
+          if !pn && (← getIdx) ≤ start then pure acc else typeParamsLoop toks pn fuel acc
         else if t.text == ">" then pure acc
         else do diag .invalid; pure acc
       | none => do diag .incomplete; pure acc
@@ -408,7 +414,7 @@ def paramsLoop (toks : Toks) (pn : Bool) : Nat → List Param → P (List Param)
         if t.text == "," then do
           let _ ← pop toks
           if (← getIdx) > start then paramsLoop toks pn fuel acc
-          else panic "parser.rs:2183"
+          else if pn then panic "parser.rs:2183" else pure acc
         else if t.text == ")" then pure acc
         else do diag .invalid; pure acc
       | none => do diag .incomplete; pure acc
@@ -435,7 +441,7 @@ def destLoop (toks : Toks) (pn : Bool) : Nat → List String → P (List String)
         let acc := acc ++ [s.name]
         if !(← peekIs toks ")") then do let _ ← requireToken toks ","
         if (← getIdx) > start then destLoop toks pn fuel acc
-        else panic "parser.rs:2812"
+        else if pn then panic "parser.rs:2812" else pure acc
 
 /-- `parse_let_destination`. -/
 def parseLetDestination (toks : Toks) (pn : Bool) (fuel : Nat) : P LetDest := do
@@ -865,7 +871,8 @@ def fieldsLoop (toks : Toks) (pn : Bool) : Nat → List Field → P (List Field)
         | none => do diag .incomplete; pure acc
         | some t =>
           if t.text == "," then do let _ ← pop toks
-          fieldsLoop toks pn fuel acc
+          -- repair: an iteration that ends where it started would repeat forever (pinned: it does)
+          if !pn && (← getIdx) == start then pure acc else fieldsLoop toks pn fuel acc
 
 /-- `parse_match`. -/
 def parseMatch (toks : Toks) (pn : Bool) : Nat → P PExpr
@@ -1036,10 +1043,13 @@ def enumBodyLoop (toks : Toks) (pn : Bool) : Nat → List Variant → P (List Va
   | fuel + 1, acc => do
     if ← peekIs toks "}" then pure acc
     else do
+      let start ← getIdx
       let v ← parseVariant toks pn fuel
       match ← peek toks with
       | some t =>
-        if t.text == "," then do let _ ← pop toks; enumBodyLoop toks pn fuel (acc ++ [v])
+        if t.text == "," then do
+          let _ ← pop toks
+          if !pn && (← getIdx) ≤ start then pure (acc ++ [v]) else enumBodyLoop toks pn fuel (acc ++ [v])
         else if t.text == "}" then pure (acc ++ [v])
         else do diag .invalid; pure (acc ++ [v])
       | none => do diag .incomplete; pure (acc ++ [v])
